@@ -111,6 +111,11 @@ AllInc(items, inc) == Stmt("all", "", "", "", FALSE, items, inc) \* __all__ = [i
 Aug(items) == Stmt("aug", "", "", "", FALSE, items, "")          \* __all__ += [items]
 AugInc(inc) == Stmt("aug", "", "", "", FALSE, <<>>, inc)         \* __all__ += inc
 
+\* `inc` of an __all__ statement: "" nothing spliced; a local name bound to a list (`*a_all`); or the ATTRIBUTE form
+\* `*a.__all__` through a local name bound to a module, written "@a"
+AttrIncs == {"@a"}
+AttrBase(inc) == "a"
+
 BoundName(s) ==      \* the name a statement binds in its module ("" for none / star)
   CASE s.op = "def" -> s.n
     [] s.op = "from" -> IF s.as # "" THEN s.as ELSE s.n
